@@ -6,7 +6,7 @@ from ..core import BaseProp, CaseResult, sig_hash
 from .. import runner
 
 ID = re.compile(r"\{T(\d+)\}")
-TITLES = ["Title", "t", "A longer title with spaces", "ünï ✓", "日本語", "x" * 40, "###", "a.b-c", ""]
+TITLES = ["Title", "t", "A longer title with spaces", "ünï ✓", "日本語", "x" * 40, "###", "a.b-c", "", "with *stars* and `ticks`", "pipe | and \\ backslash", "_under_ :role:`x`"]
 HEADERS = [list("#*=-_~!&@^"), ["="], ["*", "#"], list("-~^"), ["+", "=", "-"]]
 TEXTS = ["plain", "  leading two", "        eight", "a\nb", "first\n   indented second\nthird", "tail  ", ":looks: like field",
          ".. looks:: like directive", "* bullet-like", "ünï ✓", "\ttab", "", "line\n\nwith blank"]
